@@ -138,4 +138,11 @@ def linesOf : Bytes → List Bytes
       | [] => [[x]]          -- unterminated tail (does not occur for norm'ed input)
       | l :: ls => (x :: l) :: ls
 
+/-- consecutive groups of `n` (the entries of an `n`-lines-per-entry format, as lists of lines) -/
+def groupsOf {α} (n : Nat) (l : List α) : List (List α) :=
+  (List.range (l.length / n)).map (fun i => (l.drop (i * n)).take n)
+
+/-- entries of a FASTQ (n = 4) / two-line FASTA (n = 2) / delimited (n = 1) byte string -/
+def entriesK (n : Nat) (b : Bytes) : List (List Bytes) := groupsOf n (linesOf b)
+
 end C01
